@@ -1,5 +1,6 @@
 mod a2lgen;
 mod c01;
+mod c02;
 mod c03;
 mod c03lex;
 mod c04;
@@ -62,6 +63,7 @@ fn main() {
     common::silence_panics();
     let report = match prop.as_str() {
         "C01" => c01::run(&args),
+        "C02" => c02::run(&args),
         "C03" => c03::run(&args),
         "C03L" => c03lex::run(&args),
         "C04" => c04::run(&args),
